@@ -6,6 +6,7 @@ import (
 	"sort"
 	"strings"
 	"time"
+	_ "time/tzdata" // the zones of the zoned-recurrence universe, whatever the host has installed
 
 	"github.com/emersion/go-ical"
 	"github.com/emersion/go-webdav/caldav"
